@@ -995,7 +995,7 @@ where
                                 return;
                             }
 
-                            if inner.done {
+                            if inner.done && inner.complete {
                                 break;
                             }
                         }
